@@ -1,5 +1,5 @@
 (* Wire functions for C23 (chunked transfer coding).
-   [1 wire [rd sizes] [piece sizes]] -> [data errcode consumed]    decode until error
+   [1 wire [rd sizes] [piece sizes]] -> [data errcode consumed errcode2]    decode until error, then 2 more Reads
    [2 [chunk ...]]                   -> wire                       encode
    [3 line]                          -> [n] | [-1 code]            parseHexUint *)
 From Coq Require Import List ZArith Bool.
@@ -9,7 +9,8 @@ Open Scope Z_scope.
 
 Definition dec_obs (wire : bytes) (r : bytes * Z * bytes) : val :=
   let '(d, e, rest) := r in
-  VL [VB d; VZ e; VZ (if e =? 1 then blen wire - blen rest else 0)].
+  (* the last field: further Reads return (0, cr.err) - first branch of cr_read - so the same code again *)
+  VL [VB d; VZ e; VZ (if e =? 1 then blen wire - blen rest else 0); VZ e].
 
 Definition run_C23 (i : val) : val :=
   match i with
@@ -36,9 +37,9 @@ Definition prop_C23 (i o : val) : bool :=
        chunks and the last-chunk line) iff the wire is a well-formed chunked body; otherwise a real error *)
     let '(d, ok, rest) := ref_decode_all wire in
     match o with
-    | VL [VB d'; VZ e; VZ c] =>
+    | VL [VB d'; VZ e; VZ c; VZ e2] =>
       bytes_eqb d d' && negb (e =? 0) && Bool.eqb ok (e =? 1) &&
-      (if ok then c =? blen wire - blen rest else true)
+      (if ok then c =? blen wire - blen rest else true) && (e2 =? e)   (* and the outcome is sticky *)
     | _ => false
     end
   | VL [VZ 2; chunks] =>
